@@ -25,6 +25,7 @@ def run(prog: Program, rep: Report):
     r8_idiom(prog, rep, pf)
     r9_call_local(prog, rep, pf, "C01.R9")
     r10_input_once(prog, rep, pf)
+    feeder_early_exits(prog, rep, pf, "C01.R11")
 
 
 # ---------------------------------------------------------------------------------------------- R1
@@ -588,3 +589,78 @@ def r10_input_once(prog, rep: Report, pf: PoolFacts):
             probs = param_used_only_for_iteration(g, g.params[0], set())
             rep.check("C01.R10", g, "input", not probs, f"`{g.params[0]}` is iterated once", "; ".join(probs),
                       scenario="lazily produced input is traversed twice or measured with len()")
+
+
+# ---------------------------------------------------------------------------------------------- shared with C02 / C03
+def counter_reset_per_call(prog, rep: Report, pf: PoolFacts, rule: str):
+    """the pool-level sent counter is reset for every call before its first increment (before start() or in run())"""
+    rep.rule(rule, "per-call counter: the sent counter the completion test compares against is reset for every call (in the "
+             "feeder's __init__/__enter__ before start(), by the consumer before the with, or in run() before the first "
+             "increment); the finished counter is a local starting at 0", floor=2)
+    for c in pf.consumers:
+        rep.fn(c, pf.feeder_run)
+        client = _PreStart(pf)
+        it = Interp(prog, client)
+        it.run(c, {(False, False, False)}, pf.pool)
+        reset_pre = bool(client.start_states) and all(s_[1] for s_ in client.start_states)
+        fclient, fit, fex = feeder_analysis(prog, pf, reset_pre)
+        bad = [p for p in fclient.problems if p[1] == "R1"]
+        rep.check(rule, c, f"counter:{pf.counter}", not bad,
+                  f"self.{pf.counter} is reset for every {c.name}() call before it is incremented",
+                  f"self.{pf.counter} is not reset for a {c.name}() call: it continues from the previous call's total while the "
+                  f"finished counter starts at 0",
+                  scenario=f"two consecutive calls on one pool: in the second call finished can never reach self.{pf.counter}; "
+                           f"after its last result the call never ends (or it ends early and leaves results for the next call)",
+                  line=bad[0][0] if bad else None)
+
+
+def feeder_early_exits(prog, rep: Report, pf: PoolFacts, rule: str):
+    """the feeder may leave its send loop early only because stop() was called"""
+    rep.rule(rule, "feeder sends everything unless stopped: every break/return inside the feeder's send loop is guarded by the "
+             "stop event alone (the event that stop() sets at context exit); no other condition may end the feeding", floor=1)
+    run_ = pf.feeder_run
+    rep.fn(run_)
+    # the stop event: the Event that stop() of the thread class sets
+    stop = prog.resolve(pf.feeder, "stop")
+    stop_ev = None
+    if stop is not None:
+        for c in calls_in(stop.node):
+            if isinstance(c.func, ast.Attribute) and c.func.attr == "set":
+                d = dotted(c.func.value)
+                if d and len(d) == 2 and d[0] == stop.self_name:
+                    stop_ev = d[1]
+    loops = [n for n in walk_own(run_.node) if isinstance(n, (ast.For, ast.While))
+             and any(isinstance(c, ast.Call) and queue_call(c) and queue_call(c)[0] == "put" for c in ast.walk(n))]
+    if stop_ev is None or len(loops) != 1:
+        rep.unrec(rule, run_, "early-exit", f"stop event ({stop_ev}) / send loop ({len(loops)}) not identified")
+        return
+    loop = loops[0]
+    exits = [n for n in ast.walk(loop) if isinstance(n, (ast.Break, ast.Return))]
+    probs = []
+    for e in exits:
+        guard = None
+        p_ = getattr(e, "_parent", None)
+        while p_ is not None and p_ is not loop:
+            if isinstance(p_, ast.If):
+                guard = p_
+                break
+            p_ = getattr(p_, "_parent", None)
+        if guard is None:
+            probs.append((e.lineno, "an unconditional break/return ends the feeding"))
+            continue
+
+        def only_stop(t) -> bool:
+            if isinstance(t, ast.Call) and isinstance(t.func, ast.Attribute) and t.func.attr == "is_set" \
+                    and dotted(t.func.value) == (run_.self_name, stop_ev):
+                return True
+            if isinstance(t, ast.BoolOp) and isinstance(t.op, ast.And):
+                return any(only_stop(v) for v in t.values)
+            return False
+        if not only_stop(guard.test):
+            probs.append((e.lineno, f"the send loop is left under `{src(guard.test)}`, which does not require the stop event "
+                                    f"self.{stop_ev}"))
+    rep.check(rule, run_, "early-exit", not probs, f"{len(exits)} early exit(s), all guarded by self.{stop_ev}.is_set()",
+              "; ".join(m for _, m in probs),
+              scenario="results_queue_maxsize=1 and a first chunk that takes 3 s: the feeder is paused for more than its wait "
+                       "timeout, gives up and clears the flag; imap returns a truncated prefix of the results",
+              line=probs[0][0] if probs else None)
